@@ -123,8 +123,10 @@ def scenarios_for(rnd, d, ob, facts, tier):
     for fn in fl[: (3 if tier == "quick" else 8)]:
         sc("fail", fail=[fn], delay=rnd.choice([0, 60]))
     if tier != "quick" and len(fl) >= 2:
-        for _ in range(3):
-            sc("fail", fail=rnd.sample(fl, 2), delay=rnd.choice([0, 60]))
+        pairs = [(a, b) for i, a in enumerate(fl) for b in fl[i + 1:]]
+        rnd.shuffle(pairs)
+        for a, b in pairs[:10]:
+            sc("fail", fail=[a, b], delay=rnd.choice([0, 60]))
     if CTX in ob["params"]:
         sc("cancel", cancel_on=dict(kind="before", fn=""), delay=0)
         fns = sorted(facts["fns"])
@@ -144,6 +146,7 @@ def monitor(d, ob, facts, sc, res):
     kind = sc["kind"]
     cancelled = any(e["kind"] == "cancel" for e in ev)
     failed = [e["fn"] for e in ev if e["kind"] == "fail"]
+    ctxfailed = [e["fn"] for e in ev if e["kind"] == "ctxfail"]     # context-taking providers that returned ctx.Err()
     enters = [e for e in ev if e["kind"] == "enter"]
     exits = {}
     for e in ev:
@@ -168,7 +171,7 @@ def monitor(d, ob, facts, sc, res):
             out.append(("C02", "violation", "provider %s invoked %d times" % (fn, c)))
     if res.get("panic"):
         out.append(("C03", "violation", "panic: %s" % res["panic"]))
-    fault_free = not cancelled and not failed
+    fault_free = not cancelled and not failed and not ctxfailed
     if fault_free:
         if not res["returned"]:
             out.append(("C03", "violation", "injector did not return in a fault-free run"))
@@ -199,6 +202,8 @@ def monitor(d, ob, facts, sc, res):
         elif res["err"].startswith("prov:"):
             if res["err"][5:] not in failed:
                 out.append(("C06", "violation", "returned error %s is not one of the failed providers %s" % (res["err"], failed)))
+        elif res["err"] == "canceled" and ctxfailed:
+            pass    # a context-taking provider reported the (internal) cancellation itself: an error returned by an invoked provider
         elif res["err"] == "canceled":
             out.append(("C06", "known:KF-C06-1", "injector returned its internal context's cancellation instead of the error of %s" % failed))
         else:
@@ -216,10 +221,12 @@ def monitor(d, ob, facts, sc, res):
                 out.append(("C07", "violation", "returned partial value %s with nil error after cancellation" % res["value"]))
     if res["returned"] and res["leaked"]:
         early_main = (res["err"] == "canceled") or (res["err"].startswith("prov:") and res["err"][5:] in main_fns)
-        if res["err"] and early_main:
+        waits = [w for w in res.get("leak_wait") or [] if w.startswith("goroutine:")]
+        in_select = bool(waits) and all(w == "goroutine:select" for w in waits)
+        if res["err"] and early_main and in_select:
             out.append(("C08", "known:KF-C08-1", "goroutine left blocked after the main thread's early error return (%s)" % res["err"]))
         elif not fault_free:
-            out.append(("C08", "violation", "%d goroutine(s) blocked after return (err=%r): %s" % (res["leaked"], res["err"], res.get("leak_info", ""))))
+            out.append(("C08", "violation", "%d goroutine(s) blocked after return (err=%r) in %s: %s" % (res["leaked"], res["err"], waits, res.get("leak_info", ""))))
     return out
 
 
@@ -249,9 +256,17 @@ def _stage(seed, tier):
             bypkg.setdefault(r["pkg"], []).append(r)
             if (r.get("model_mismatch") or r["problems"]) and r["pkg"] not in suspicious:
                 suspicious.append(r["pkg"])      # search for a failing execution where model and code disagree
+    # isolation: each suspicious declaration also alone in its own package
+    susp_recs = [r for r in S["records"] if r["kind"] == "valid" and r["id"] and r["decl"] and (r.get("model_mismatch") or r["problems"] or r.get("checker_code"))]
+    for i, r in enumerate(susp_recs[:10]):
+        iso = stage_s.isolate(mod, "iso%d" % i, r["decl"])
+        if iso["rc"] == 0 and (iso["obs"] is not None or iso["sig"]):
+            iso["model_mismatch"] = True
+            bypkg["iso%d" % i] = [iso]
+            suspicious.insert(0, "iso%d" % i)
     maxp = 4 if tier == "quick" else 24
     rest = [p for p in sorted(bypkg) if p not in suspicious]
-    pk_names = suspicious[:8] + [p for p in rest if p.startswith("p")][:maxp] + [p for p in rest if p.startswith("y")]
+    pk_names = suspicious[:16] + [p for p in rest if p.startswith("p")][:maxp] + [p for p in rest if p.startswith("y")]
     plans = {}
     for pk in pk_names:
         injs = []
@@ -265,7 +280,9 @@ def _stage(seed, tier):
                           main=[], gos=[[]], unparsed=True)
             facts = decl_facts(d)
             injs.append(dict(name=d["name"], params=ob["params"], reterr=ob["reterr"]))
-            ss = scenarios_for(rnd, d, ob, facts, tier)
+            # where model and code disagree the failing-input search uses the deep scenario set (failure pairs, more cancel points)
+            deep = bool(r.get("model_mismatch") or r["problems"] or r.get("checker_code"))
+            ss = scenarios_for(rnd, d, ob, facts, "thorough" if deep else tier)
             scs += ss
             info[d["name"]] = (d, ob, facts)
         with open(os.path.join(mod, pk, "zz_driver.go"), "w") as f:
